@@ -1260,7 +1260,7 @@ def tree(draw, s, dt, depth, first=None):
     if depth <= 0:
         return leaf_for(draw, s, dt, only=first)
     kind = draw(st.sampled_from(["leaf", "compose", "compose", "add", "scale", "hstack", "vstack", "diag",
-                                 "conj", "H", "HH", "neg"]))
+                                 "conj", "H", "HH", "neg", "sumchain"]))
     if kind == "leaf":
         return leaf_for(draw, s, dt, only=first)
     if kind == "compose":
@@ -1273,6 +1273,23 @@ def tree(draw, s, dt, depth, first=None):
         o, _ = shape_of(a)
         b = fit(draw, tree(draw, s, dt, depth - 1), o)
         return {"op": draw(st.sampled_from(["Add", "Sub"])), "a": a, "b": b}
+    if kind == "sumchain":
+        # A + B - C (+ D): three or four terms, the first ones often operators that return a VIEW of their input
+        # (Reshape, Transpose, Flip, Slice, Identity), so that in-place accumulation into a term's output shows
+        k = draw(st.integers(3, 4))
+        views = [n for n in ("Identity", "Reshape", "Transpose", "Flip", "Slice") if LEAF_GENS[n][1](s)]
+        terms = []
+        for j in range(k):
+            if j < 2 and draw(st.booleans()):
+                t = leaf_for(draw, s, dt, only=views)
+            else:
+                t = tree(draw, s, dt, max(0, depth - 2), first if j == 0 else None)
+            terms.append(t)
+        o0, _ = shape_of(terms[0])
+        out = terms[0]
+        for t in terms[1:]:
+            out = {"op": draw(st.sampled_from(["Add", "Add", "Sub"])), "a": out, "b": fit(draw, t, o0)}
+        return out
     if kind == "scale":
         return {"op": "Scale", "a": tree(draw, s, dt, depth - 1, first), "s": st_scalar(draw, allow_one=False),
                 "side": draw(st.sampled_from(["l", "r"]))}
